@@ -352,6 +352,9 @@ func (ft *FT) background() (head []string, facts []*T) {
 		if isLowerHex(s) {
 			facts = append(facts, A("canonhex", L(n)))
 		}
+		if ft.usedSpec["str.leak"] {
+			facts = append(facts, Not(A("str.leak", L(n)))) // a literal carries no backend error text
+		}
 	}
 	for _, sv := range sortedKeys(ft.namedLits) {
 		n := ft.namedLits[sv]
